@@ -10,7 +10,7 @@ IMPORTS = ['Base.Vec', 'C11.Model', 'C11.Corr']
 
 
 def translate():
-    return {'Gen/Solvers.v': TS.translate()}
+    return {'Gen/Solvers.v': TS.translate(), 'Gen/SolversL.v': TS.translate_l()}
 
 
 # ---------------------------------------------------------------- generators
